@@ -780,9 +780,11 @@ def legal_source(regions, s, n):
     return True
 
 def worker_init(ctx):
-    st = {"lib": Lib(ctx["lib"]), "oracle": Oracle(), "ctx": ctx}
+    # one extracted oracle process: linear-time block specification decoder + the FastStream model session
+    orc = Oracle(name="stream")
+    st = {"lib": Lib(ctx["lib"]), "oracle": orc, "ctx": ctx}
     if ctx.get("model", True):
-        st["stream_oracle"] = Oracle(name="stream")
+        st["stream_oracle"] = orc
     return st
 
 # ====================================================================== scenarios
@@ -853,19 +855,19 @@ class Geo:
             return self.src
         if k == "scatter":
             regs = self.regions(sid)
-            for _ in range(30):
-                sl = rng.choice(self.slots)
+            inslot = lambda a: any(s0 <= a and a + n <= s0 + self.slotsize for s0 in self.slots)
+            for _ in range(40):
                 r = rng.random()
-                if r < 0.3 and regs and regs[0][1] + n <= max(self.slots) + self.slotsize + 64:
-                    a = regs[0][1]                                       # contiguous: prefix mode
-                    if not any(s <= a and a + n <= s + self.slotsize + 0 for s in self.slots): continue
+                if r < 0.3 and regs:
+                    a = regs[0][1]                                       # contiguous to the dictionary: prefix mode
                 elif r < 0.5 and regs:
                     b, e = regs[0]                                       # overlap the front of the dictionary
-                    a = max(min(self.slots), b - rng.randrange(0, n + 1))
-                    if not any(s <= a and a + n <= s + self.slotsize for s in self.slots): continue
+                    a = b - rng.randrange(0, n + 1) + rng.choice([0, 0, 1, 5])
+                elif r < 0.55 and regs:
+                    a = regs[0][0] - n                                   # ends exactly where the dictionary starts
                 else:
-                    a = sl + rng.randrange(0, self.slotsize - n + 1)
-                if legal_source(regs, a, n):
+                    a = rng.choice(self.slots) + rng.randrange(0, self.slotsize - n + 1)
+                if inslot(a) and legal_source(regs, a, n):
                     return a
             return None
     def after(self, sid, n):
@@ -944,7 +946,9 @@ def scen_stream(S, rng, fam, kind, M, nblocks, p):
             else: S.h_level(sid, rng.choice(levels))
         cap = pick_cap(rng, n, p.get("pfail", 0.06))
         if fam == "f":
-            if rng.random() < p.get("pforce", 0.03) and S.fstate(sid)["dctx"] == -1 and (S.dict_region(sid) or (0, 0))[1] != a:
+            fs = S.fstate(sid); dr = S.dict_region(sid)
+            if rng.random() < p.get("pforce", 0.03) and fs["dctx"] == -1 and (fs["ds"] == 0 or fs["ds"] >= 4) and fs["cur"] < 0x70000000 \
+               and (dr is None or a + n <= dr[0] or a >= dr[1]) and n > 0:
                 r, out = S.f_continue(sid, a, n, 0, 1, force_ext=True)
             else:
                 r, out = S.f_continue(sid, a, n, cap, acc, expect_ok=cap >= bound(n))
@@ -962,7 +966,7 @@ def inject(S, rng, fam, sid, M):
     """move the stream's indices close to a renormalisation threshold (state injection)"""
     if fam == "f":
         cur = S.fstate(sid)["cur"]
-        tgt = rng.choice([0x80000000, 0x80000000, 0x40000000, 0xFFFFFFFF])
+        tgt = rng.choice([0x80000000, 0x80000000, 0x40000000])     # reachable index range only: currentOffset <= 2^31
         margin = rng.choice([0, 1, M, 2 * M + 3, rng.randrange(0, 4 * M + 8)])
         delta = tgt - margin - cur
         if delta > 0:
@@ -1179,9 +1183,10 @@ def scen_reuse(S, rng, fam, p):
             elif k < 0.58:
                 n = size_of_class(); a, data = next_input(n)
                 b = bound(n)
-                S.f_oneshot(sid, "dsz", a, n, rng.choice([b, max(1, b - 1), max(1, n // 2), rng.randrange(1, b + 2), 1, 13]), rng.choice(ACCELS))
+                # acceleration >= 1 only: LZ4_compress_destSize_extState does not clamp it (reported separately, not C18's subject)
+                S.f_oneshot(sid, "dsz", a, n, rng.choice([b, max(1, b - 1), max(1, n // 2), rng.randrange(1, b + 2), 1, 13]), rng.choice([1, 1, 2, 9, 65537, 100000]))
             elif k < 0.62:
-                tgt = rng.choice([0x40000000, 0x40000000, 0xFFFF, 0xFFFFFFFF, 0x80000000])
+                tgt = rng.choice([0x40000000, 0x40000000, 0xFFFF, 0x80000000])
                 s = S.fstate(sid)
                 d = tgt - rng.choice([0, 1, 100, 70000, rng.randrange(0, 200000)]) - s["cur"]
                 if d > 0 and s["tt"] != 3 and (s["cur"] + d) < (1 << 32):
@@ -1208,11 +1213,12 @@ def scen_reuse(S, rng, fam, p):
                     # streaming blocks go after the current position, never over the stream's dictionary
                     if pos + n > total: pos = 0
                     regs = [S.dict_region(sid)] if S.dict_region(sid) else []
+                    fixed = []
                     if S.fstate(sid)["dctx"] >= 0:
                         r2 = S.dict_region(S.fstate(sid)["dctx"])
-                        if r2: regs.append(r2)
+                        if r2: fixed.append(r2)
                     a = area + pos
-                    if not legal_source(regs, a, n) or any(b < a + n and a < e for (b, e) in regs[1:]):
+                    if not legal_source(regs, a, n) or any(b < a + n and a < e for (b, e) in fixed):
                         break
                     data = make_block(rng, n, dec.H, base)
                     S.write(a, data); pos += n
